@@ -30,6 +30,10 @@ class PathAbort(BaseException):
     """The current path is infeasible or was cut by an assumption."""
 
 
+class Pruned(BaseException):
+    """The subtree belongs to another parallel worker."""
+
+
 class BoundExceeded(BaseException):
     """A loop/recursion would need more iterations than the stated bound on a
     feasible path: the unwinding assertion failed -> inconclusive."""
@@ -61,6 +65,8 @@ class Stats(object):
 
 STATS = Stats()
 QUERY_TIMEOUT_MS = 10000
+SLOW_QUERY_S = 1.0
+SLOW_LOG = [] if __import__("os").environ.get("VERIF_SLOWLOG") else None
 
 
 def solve(constraints, timeout_ms=None):
@@ -72,7 +78,13 @@ def solve(constraints, timeout_ms=None):
         s.add(c)
     t0 = time.time()
     r = s.check()
-    STATS.solver_s += time.time() - t0
+    dt = time.time() - t0
+    STATS.solver_s += dt
+    if dt > SLOW_QUERY_S and SLOW_LOG is not None:
+        SLOW_LOG.append((round(dt, 2), str(r), [str(c)[:160] for c in constraints][-6:]))
+        import sys as _s
+        _s.stderr.write("SLOW %.1fs %s %s\n" % (dt, r, [str(c)[:200] for c in constraints][-8:]))
+        _s.stderr.flush()
     STATS.queries += 1
     if r == z3.sat:
         STATS.sat += 1
@@ -82,6 +94,10 @@ def solve(constraints, timeout_ms=None):
         return "unsat", None
     STATS.unknown += 1
     return "unknown", None
+
+
+INCREMENTAL = True     # per-path incremental solver (push/pop).  Harnesses whose path conditions contain
+#                        z3 strings set this to False: z3's incremental string solver stalls (DESIGN.md section 9).
 
 
 def is_true(e):
@@ -120,6 +136,9 @@ class Ctx(object):
         self.pc = []                  # path condition (list of z3 Bool)
         self.model = None             # a model of pc, when known
         self._names = {}
+        self._solver = None
+        self._synced = 0
+        self._facts = set()
         self.log = []                 # effect log (harness-defined tuples)
         self.notes = {}               # free-form per-path data for harnesses
         self.maybe_infeasible = False
@@ -143,7 +162,49 @@ class Ctx(object):
     def fresh_real(self, hint="r"):
         return z3.Real(self._name(hint))
 
+    # -- solver access ---------------------------------------------------------
+    def query(self, extra):
+        """sat/unsat/unknown of pc + extra (list of terms); returns (result, model)"""
+        if not INCREMENTAL:
+            return solve(self.pc + list(extra))
+        s = self._solver
+        if s is None:
+            s = self._solver = z3.Solver()
+            s.set("timeout", int(QUERY_TIMEOUT_MS))
+            self._synced = 0
+        while self._synced < len(self.pc):
+            s.add(self.pc[self._synced])
+            self._synced += 1
+        s.push()
+        try:
+            for e in extra:
+                s.add(e)
+            t0 = time.time()
+            r = s.check()
+            dt = time.time() - t0
+            STATS.solver_s += dt
+            STATS.queries += 1
+            if r == z3.sat:
+                STATS.sat += 1
+                return "sat", s.model()
+            if r == z3.unsat:
+                STATS.unsat += 1
+                return "unsat", None
+            STATS.unknown += 1
+            return "unknown", None
+        finally:
+            s.pop()
+
     # -- constraints -----------------------------------------------------------
+    def add_fact(self, cond):
+        """append a contract fact (always satisfiable together with the path
+        condition, e.g. the range of a byte) once"""
+        k = cond.get_id()
+        if k in self._facts:
+            return
+        self._facts.add(k)
+        self.pc.append(cond)
+
     def assume(self, cond):
         """Add `cond` to the path condition; abort the path if it becomes
         infeasible.  Assumptions are part of the claim: harnesses list them."""
@@ -160,7 +221,7 @@ class Ctx(object):
             STATS.model_hits += 1
             self.pc.append(cond)
             return
-        r, m = solve(self.pc + [cond])
+        r, m = self.query([cond])
         if r == "unsat":
             raise PathAbort()
         self.pc.append(cond)
@@ -198,7 +259,7 @@ class Ctx(object):
                 feasible.append(k)
                 models[k] = self.model
                 continue
-            r, m = solve(self.pc + [opt])
+            r, m = self.query([opt])
             if r == "unsat":
                 continue
             if r == "unknown":
@@ -208,6 +269,10 @@ class Ctx(object):
         if not feasible:
             # can only happen after an 'unknown' feasibility step
             raise PathAbort()
+        if ex.shard is not None and len(self.prefix) == ex.split_depth - 1:
+            feasible = [k for k in feasible if _shard_of(self.prefix + [k], ex.shard[1]) == ex.shard[0]]
+            if not feasible:
+                raise Pruned()
         k = feasible[0]
         ex._push(k, feasible[1:], label)
         self.prefix = self.prefix + [k]
@@ -237,7 +302,7 @@ class Ctx(object):
     def check_model(self, extra=()):
         """A model of the path condition (+extra) or None if unsat; 'unknown'
         raises Unsupported (inconclusive)."""
-        r, m = solve(self.pc + list(extra))
+        r, m = self.query(list(extra))
         if r == "unknown":
             raise Unsupported("solver answered unknown on a final query")
         return m
@@ -250,7 +315,7 @@ class Ctx(object):
         c = z3.simplify(cond)
         if is_true(c):
             return True, None
-        r, m = solve(self.pc + [z3.Not(c)])
+        r, m = self.query([z3.Not(c)])
         if r == "unsat":
             return True, None
         if r == "unknown":
@@ -272,9 +337,11 @@ class PathResult(object):
 class Explorer(object):
     """Depth-first exploration of all feasible paths of `fn(ctx)`."""
 
-    def __init__(self, max_paths=20000, deadline=None):
+    def __init__(self, max_paths=20000, deadline=None, shard=None, split_depth=2):
         self.max_paths = max_paths
         self.deadline = deadline
+        self.shard = shard              # (i, n): this explorer owns the i-th of n parts of the tree
+        self.split_depth = split_depth
         self.stack = []     # [choice, remaining alternatives, label]
         self.incomplete = None
 
@@ -303,6 +370,8 @@ class Explorer(object):
                 try:
                     v = fn(c)
                     res = PathResult("return", v, None, c)
+                except Pruned:
+                    res = None
                 except PathAbort:
                     res = PathResult("abort", None, None, c)
                 except BoundExceeded as e:
@@ -315,9 +384,16 @@ class Explorer(object):
                     res = PathResult("raise", None, e, c)
             finally:
                 _CURRENT[0] = prev
-            n += 1
-            STATS.paths += 1
-            if on_path is not None:
+            if res is not None and self.shard is not None and len(c.prefix) < self.split_depth:
+                # short path: reported by exactly one worker
+                if _shard_of(c.prefix, self.shard[1]) != self.shard[0]:
+                    res = None
+            if res is not None:
+                n += 1
+                STATS.paths += 1
+            if res is None:
+                pass
+            elif on_path is not None:
                 _CURRENT[0] = c
                 try:
                     on_path(res)
@@ -334,6 +410,13 @@ class Explorer(object):
             top[0] = top[1].pop(0)
             prefix = [e[0] for e in self.stack]
         return results if on_path is None else n
+
+
+def _shard_of(choices, n):
+    h = 7
+    for k in choices:
+        h = (h * 31 + k + 1) % 1000003
+    return h % n
 
 
 def explore(fn, max_paths=20000, deadline=None):
